@@ -106,7 +106,23 @@ fn operations(w: &World, variant: &str) -> Vec<(&'static str, Box<dyn Fn() -> St
             Err(e) => format!("err: {e}"),
         })
     };
+    // one client: a change followed by the repository synchronisation it asks for
+    let then = |a: Box<dyn Fn() -> String + Send>, b: Box<dyn Fn() -> String + Send>| -> Box<dyn Fn() -> String + Send> {
+        Box::new(move || {
+            let r = a();
+            if r != "ok" {
+                return r;
+            }
+            b()
+        })
+    };
     match variant {
+        // two clients that each change the CA and have it published at once,
+        // while the scheduler works on the tasks (among them the RRDP update)
+        "two-syncs" => vec![
+            ("roa+sync", then(roa("ca", "10.0.2.0/24 => 65000"), sync_repo("ca"))),
+            ("aspa+sync", then(aspa(), sync_repo("ca"))),
+        ],
         // the periodic re-publication (here forced) against a change of the same CA
         "republish" => vec![("roa", roa("ca", "10.0.2.0/24 => 65000")), ("republish", republish())],
         "same-ca" => vec![("roa", roa("ca", "10.0.2.0/24 => 65000")), ("aspa", aspa())],
@@ -366,9 +382,9 @@ pub fn run(tier: &Tier, args: &[String]) -> i32 {
     };
     crate::keys::skip(keys_used + 8);
     let variants: Vec<(&str, bool)> = if tier.thorough {
-        vec![("same-ca", true), ("parent-child", true), ("two-cas", true), ("repo", true), ("rrdp", true), ("republish", true), ("same-ca", false), ("parent-child", false)]
+        vec![("same-ca", true), ("parent-child", true), ("two-cas", true), ("repo", true), ("rrdp", true), ("republish", true), ("two-syncs", true), ("same-ca", false), ("parent-child", false)]
     } else {
-        vec![("same-ca", true), ("parent-child", true), ("two-cas", true), ("repo", true), ("rrdp", true), ("republish", true), ("parent-child", false)]
+        vec![("same-ca", true), ("parent-child", true), ("two-cas", true), ("repo", true), ("rrdp", true), ("republish", true), ("two-syncs", true), ("parent-child", false)]
     };
     let only = crate::report::arg_value(args, "--variant");
     let mut runs = Vec::new();
